@@ -26,7 +26,7 @@ ASSUMPTIONS = [
     'stability is required only for keys that are exactly equal',
     'format specs used in keys render fixed-width text for the generated domain (e.g. {n:04d} over 0..9999)',
 ]
-BUDGET = {'quick': dict(examples=1200, shards=8, seconds=70),
+BUDGET = {'quick': dict(examples=2400, shards=16, seconds=70),
           'thorough': dict(examples=60000, shards=16, seconds=1200)}
 
 STR_POOL = ['a', 'a0', 'a00', 'a1', 'ab', 'abc', 'b', 'B', 'a ', 'é', 'z', '', '0', '00', 'f', 'ff', 'a\U0001F600', 'aé', '~', 'a~']
